@@ -19,6 +19,7 @@ import (
 type trOp struct {
 	Op    string   `json:"op"`
 	Codec string   `json:"codec"`
+	Ident bool     `json:"ident"`
 	Dst   string   `json:"dst"`
 	Roots []string `json:"roots"`
 }
@@ -51,7 +52,7 @@ func runTransformCase(c *trCase, dir string, variant int) (string, string) {
 		case "wrap":
 			dst := filepath.Join(dir, "wrapped.car")
 			os.Remove(dst)
-			if st.Op.Codec == "mh" && variant == 0 && len(zopts) == 0 {
+			if st.Op.Codec == "mh" && variant == 0 && len(zopts) == 0 && !st.Op.Ident {
 				err = carv2.WrapV1File(cur, dst)
 			} else {
 				var out bytes.Buffer
@@ -59,7 +60,11 @@ func runTransformCase(c *trCase, dir string, variant int) (string, string) {
 				if st.Op.Codec == "sorted" {
 					opt = carv2.UseIndexCodec(multicodec.CarIndexSorted)
 				}
-				err = carv2.WrapV1(bytes.NewReader(before), &out, append([]carv2.Option{opt}, zopts...)...)
+				wopts := append([]carv2.Option{opt}, zopts...)
+				if st.Op.Ident {
+					wopts = append(wopts, carv2.StoreIdentityCIDs(true))
+				}
+				err = carv2.WrapV1(bytes.NewReader(before), &out, wopts...)
 				if err == nil {
 					err = os.WriteFile(dst, out.Bytes(), 0o644)
 				}
